@@ -494,6 +494,9 @@ fn cmd_replay(args: &[String]) -> i32 {
             }
         }
     }
+    for m in marks::all() {
+        println!("  marker: {}", m);
+    }
     match &r.failure {
         Some((k, m)) => {
             println!("  verdict: {} — {}", k, m);
